@@ -24,6 +24,8 @@ OL_IMPORT_TMP: _ol_reserved_name = "__ol_mod_{}"
 OL_WHILE_COUNTER: _ol_reserved_name = "__ol_cnt"
 OL_CLASS_MEMBER_KEY: _ol_reserved_name = "__ol_k"
 OL_CLASS_MEMBER_VALUE: _ol_reserved_name = "__ol_v"
+# lambda parameter, don't need format
+OL_HOOK_FUNCTION: _ol_reserved_name = "__ol_f"
 
 
 def ol_name(name: _ol_reserved_name):
